@@ -74,6 +74,30 @@ Definition send (bk : bank) (now : Z) (from to : bytes) (cs : coins) : option ba
   | None => None
   end.
 
+(** InputOutputCoins with the single input SDK 0.47 allows: the input coins are subtracted from the sender
+    (with the vesting lock check), then every output, in order, receives its coins and its account is created
+    if it does not exist.  The stateless check "sum of the outputs = input" ([coins_eqb], below) is made by the
+    caller (ValidateBasic); the addresses are decoded address bytes. *)
+Fixpoint add_outputs (bk : bank) (outs : list (bytes * coins)) : bank :=
+  match outs with
+  | [] => bk
+  | (a, cs) :: r => add_outputs (add_account (add_coins bk a cs) a) r
+  end.
+
+Definition multi_send (bk : bank) (now : Z) (from : bytes) (cs : coins) (outs : list (bytes * coins)) : option bank :=
+  match sub_coins bk now from cs with
+  | Some bk' => Some (add_outputs bk' outs)
+  | None => None
+  end.
+
+(** the coins of all outputs, concatenated: [amount_of (outs_coins outs) d] is the total of [d] over the outputs *)
+Definition outs_coins (outs : list (bytes * coins)) : coins := flat_map snd outs.
+
+(** equality of two coin lists as multisets of (denomination, amount): for every denomination the amounts agree,
+    [forall d, amount_of x d = amount_of y d] (lemma [coins_eqb_spec]); decided over the denominations that occur *)
+Definition coins_eqb (x y : coins) : bool :=
+  forallb (fun d => amount_of x d =? amount_of y d) (map fst x ++ map fst y).
+
 (** the denominations an address holds, in store order (GetAllBalances) *)
 Definition denoms_of (bk : bank) (a : bytes) : list bytes :=
   flat_map (fun e => match decode (fst e) with
